@@ -20,14 +20,20 @@ package ton
 // Bound (quick / thorough):
 //   Forms: 2000 / 20000 seeded account hashes (zero, all-ff, leading-zero bytes, random). User-friendly form: the whole
 //     int8 workchain range for the first 40 / 400 hashes and {0,-1,1,127,-128, 2 random} for the rest x 4 flag
-//     combinations x both alphabets on parsing. Raw / JSON / TL / TL-B forms: workchains {0,-1,1,127,128,-128,-129,255,
-//     2^31-1,-2^31, 1 random int32} per hash. Single-character substitutions: 50 / 500 addresses x 48 positions x 63
-//     other digits. Unknown tags: 20 / 100 addresses x all 252 invalid tag bytes. Raw parsing: 0..66 hex digits x
-//     workchain spellings. Anycast depths 1..30 x 8 / 40 addresses; addr_var lengths {0,1,8,255,256,257,511}.
+//     combinations x both alphabets on parsing. Raw / JSON / TL forms: workchains {0,-1,1,127,128,-128,-129,255,
+//     2^31-1,-2^31, 1 random int32, 2 random int8} per hash; TL-B form (ToMsgAddress / AccountIDFromTlb): the int8
+//     workchains of that list only (ToHuman / ToMsgAddress are never called outside int8: outside the property's domain).
+//     Single-character substitutions: 50 / 500 addresses x 48 positions x 63 other digits. Raw parsing: 0..66 hex
+//     digits x workchain spellings. Anycast depths 1..30 x 8 / 40 addresses; addr_var lengths {0,1,8,255,256,257,511}.
 //     CRC16: every length 0..64 x 20 / 200 random inputs, 5 / 50 inputs of 1000 bytes, the check value.
-//   Shards: every prefix length 0..63 x 12 / 100 prefixes (zeros, ones, random) x accounts built from the prefix;
-//     MatchBlockID on all pairs of prefix lengths 0..60 x 4 relations; child / parent for all prefix lengths;
-//     convertShardIdent / GetParents for prefix lengths 0..60 x {plain, after split, after merge}.
+//   Shards: every prefix length 0..60 x 12 / 100 prefixes (zeros, ones, random) x accounts built from the prefix;
+//     MatchBlockID on all pairs of prefix lengths 0..60 x 4 relations; child / parent for all prefix lengths 0..59 / 1..60;
+//     convertShardIdent for prefix lengths 0..60.
+//
+// Informational only (logged as "INFO c17 <name>: N cases, first: ...", never a failure): leniencies the property does
+// not forbid (unknown tag bytes with a valid CRC: 20 / 100 addresses x all 252 invalid tags; \r \n skipped by the
+// base64 decoder; mixed alphabets) and behaviour outside its domain (prefix lengths 61..63 and children of depth-60
+// shards; GetParents for prefix lengths 0..60 x {plain, after split, after merge}).
 
 import (
 	"bytes"
@@ -59,8 +65,11 @@ func c17Seed() int64 {
 
 func c17Thorough() bool { return os.Getenv("VERIF_TIER") == "thorough" }
 
-// c17Fails collects failures keyed by root cause; every root cause is reported in its own sub-test with a stable name.
-// Known root causes are always run (so that they show PASS once fixed).
+// c17Fails collects findings keyed by cause. A cause named rc_... is a violation of the property: every such root cause
+// is reported in its own sub-test with a stable name; known root causes are always run (so that they show PASS once
+// fixed) and a cause that is not in the known list still gets its own sub-test. A cause named info_... is a leniency or
+// a behaviour outside the domain of the property: it is only logged ("INFO c17 <name>: N cases, first: ...") and never
+// fails the test.
 type c17Fails struct {
 	count map[string]int
 	msgs  map[string][]string
@@ -72,6 +81,9 @@ func c17NewFails(known ...string) *c17Fails {
 }
 
 func (f *c17Fails) add(cause, format string, args ...any) {
+	if !strings.HasPrefix(cause, "rc_") && !strings.HasPrefix(cause, "info_") {
+		cause = "rc_unclassified_" + cause
+	}
 	f.count[cause]++
 	if len(f.msgs[cause]) < 6 {
 		m := fmt.Sprintf(format, args...)
@@ -96,7 +108,19 @@ func (f *c17Fails) report(t *testing.T) {
 	}
 	sort.Strings(sorted)
 	for _, k := range sorted {
+		if strings.HasPrefix(k, "info_") {
+			first := "-"
+			if len(f.msgs[k]) > 0 {
+				first = f.msgs[k][0]
+			}
+			t.Logf("INFO c17 %s: %d cases, first: %s", strings.TrimPrefix(k, "info_"), f.count[k], first)
+		}
+	}
+	for _, k := range sorted {
 		k := k
+		if !strings.HasPrefix(k, "rc_") {
+			continue
+		}
 		t.Run(k, func(t *testing.T) {
 			if f.count[k] == 0 {
 				return
@@ -290,12 +314,19 @@ func TestVerifStandin_C17_Forms(t *testing.T) {
 	rng := rand.New(rand.NewSource(c17Seed()))
 	thorough := c17Thorough()
 	fails := c17NewFails(
-		"rc_tohuman_differs_from_spec", "rc_human_roundtrip", "rc_tohuman_workchain_outside_int8",
-		"rc_raw_roundtrip", "rc_raw_short_hex", "rc_raw_malformed_accepted", "rc_json_roundtrip", "rc_tl_roundtrip",
-		"rc_tlb_roundtrip", "rc_tomsgaddress_workchain_outside_int8", "rc_tlb_anycast_wrong_id", "rc_tlb_not_std_wrong_id",
-		"rc_single_char_mutation_accepted", "rc_wrong_length_accepted", "rc_padding_accepted", "rc_whitespace_accepted",
-		"rc_mixed_alphabet_accepted", "rc_unknown_tag_accepted", "rc_crc16", "rc_panic")
+		"rc_tohuman_differs_from_spec", "rc_human_rejected", "rc_human_wrong_id",
+		"rc_toraw_differs_from_spec", "rc_raw_roundtrip", "rc_raw_short_hex_wrong_id", "rc_raw_short_hex_rejected", "rc_raw_malformed_accepted",
+		"rc_json_marshal", "rc_json_unmarshal", "rc_json_container",
+		"rc_tl_marshal", "rc_tl_unmarshal", "rc_tl_truncated_accepted", "rc_tl_schema_stale",
+		"rc_tomsgaddress_fields", "rc_tomsgaddress_bits", "rc_tomsgaddress_nil", "rc_tlb_msgaddress_decode", "rc_accountidfromtlb_std",
+		"rc_tlb_anycast_wrong_id", "rc_tlb_not_std_wrong_id",
+		"rc_single_char_mutation_accepted", "rc_wrong_length_accepted", "rc_padding_accepted",
+		"rc_crc16_utils", "rc_crc16_utils_string", "rc_crc16_snksoft",
+		"rc_panic_crc16", "rc_panic_parse_human", "rc_panic_tohuman", "rc_panic_raw", "rc_panic_json", "rc_panic_tl", "rc_panic_tlb",
+		// leniencies the property does not forbid: logged, never failed
+		"info_unknown_tag_accepted", "info_whitespace_accepted", "info_mixed_alphabet_accepted")
 	var st c17Stat
+	defer st.print("c17_forms") // printed even when sub-tests fail
 
 	nHashes, nFullWc, nMut, nTag, nAny := 2000, 40, 50, 20, 8
 	if thorough {
@@ -318,11 +349,17 @@ func TestVerifStandin_C17_Forms(t *testing.T) {
 				gotS = utils.Crc16String(string(data))
 				got2 = crc.CalculateCRC(crc.XMODEM, data)
 			}); p != "" {
-				fails.add("rc_panic", "Crc16(%x): %s", data, p)
+				fails.add("rc_panic_crc16", "Crc16(%x): %s", data, p)
 				return
 			}
-			if got != want || gotS != want || got2 != uint64(want) {
-				fails.add("rc_crc16", "data %x: utils.Crc16=%#04x utils.Crc16String=%#04x snksoft XMODEM=%#04x bitwise reference=%#04x", data, got, gotS, got2, want)
+			if got != want {
+				fails.add("rc_crc16_utils", "data %x: utils.Crc16=%#04x, bitwise reference=%#04x", data, got, want)
+			}
+			if gotS != want {
+				fails.add("rc_crc16_utils_string", "data %x: utils.Crc16String=%#04x, bitwise reference=%#04x", data, gotS, want)
+			}
+			if got2 != uint64(want) {
+				fails.add("rc_crc16_snksoft", "data %x: snksoft XMODEM (used by AccountIDFromBase64Url)=%#04x, bitwise reference=%#04x", data, got2, want)
 			}
 		}
 		check([]byte("123456789"))
@@ -366,7 +403,7 @@ func TestVerifStandin_C17_Forms(t *testing.T) {
 			var id AccountID
 			var err error
 			if pm := c17Safe(func() { id, err = p.fn(s) }); pm != "" {
-				fails.add("rc_panic", "%s(%q) [%s]: %s", p.name, s, what, pm)
+				fails.add("rc_panic_parse_human", "%s(%q) [%s]: %s", p.name, s, what, pm)
 				continue
 			}
 			if err == nil {
@@ -392,7 +429,7 @@ func TestVerifStandin_C17_Forms(t *testing.T) {
 					st.note("human|" + want)
 					var got string
 					if p := c17Safe(func() { got = id.ToHuman(bounce, testnet) }); p != "" {
-						fails.add("rc_panic", "AccountID{%d,%x}.ToHuman(%v,%v): %s", wc, h, bounce, testnet, p)
+						fails.add("rc_panic_tohuman", "AccountID{%d,%x}.ToHuman(%v,%v): %s", wc, h, bounce, testnet, p)
 						continue
 					}
 					if got != want {
@@ -403,13 +440,13 @@ func TestVerifStandin_C17_Forms(t *testing.T) {
 							var back AccountID
 							var err error
 							if pm := c17Safe(func() { back, err = p.fn(s) }); pm != "" {
-								fails.add("rc_panic", "%s(%q): %s", p.name, s, pm)
+								fails.add("rc_panic_parse_human", "%s(%q): %s", p.name, s, pm)
 								continue
 							}
 							if err != nil {
-								fails.add("rc_human_roundtrip", "%s(%q) (tag %#x wc %d hash %x): %v", p.name, s, tag, wc, h, err)
+								fails.add("rc_human_rejected", "%s(%q) (tag %#x wc %d hash %x): %v", p.name, s, tag, wc, h, err)
 							} else if back != id {
-								fails.add("rc_human_roundtrip", "%s(%q) = %s, want %s", p.name, s, c17Raw(back.Workchain, back.Address), c17Raw(id.Workchain, id.Address))
+								fails.add("rc_human_wrong_id", "%s(%q) = %s, want %s", p.name, s, c17Raw(back.Workchain, back.Address), c17Raw(id.Workchain, id.Address))
 							}
 						}
 					}
@@ -423,7 +460,7 @@ func TestVerifStandin_C17_Forms(t *testing.T) {
 	if schema, err := os.ReadFile("../liteclient/lite_api.tl"); err == nil {
 		tlSchemaOK = regexp.MustCompile(`(?m)^liteServer\.accountId(#[0-9a-f]+)?\s+workchain:int\s+id:int256\s*=\s*liteServer\.AccountId;`).Match(schema)
 		if !tlSchemaOK {
-			fails.add("rc_tl_roundtrip", "liteclient/lite_api.tl does not define liteServer.accountId as workchain:int id:int256: the expected byte layout of this test is stale")
+			fails.add("rc_tl_schema_stale", "liteclient/lite_api.tl does not define liteServer.accountId as workchain:int id:int256: the expected byte layout of this test is stale")
 		}
 	}
 	type c17Holder struct {
@@ -433,18 +470,20 @@ func TestVerifStandin_C17_Forms(t *testing.T) {
 		L []AccountID
 	}
 	for _, h := range hashes {
-		for _, wc := range []int32{0, -1, 1, 127, 128, -128, -129, 255, 1<<31 - 1, -1 << 31, int32(rng.Uint32())} {
+		for _, wc := range []int32{0, -1, 1, 127, 128, -128, -129, 255, 1<<31 - 1, -1 << 31, int32(rng.Uint32()), int32(int8(rng.Intn(256))), int32(int8(rng.Intn(256)))} {
 			id := AccountID{Workchain: wc, Address: h}
 			raw := c17Raw(wc, h)
 			st.note("raw|" + raw)
+			// the user-friendly and TL-B forms only exist for int8 workchains: ToHuman / ToMsgAddress are not called
+			// outside that range
 			inInt8 := wc >= -128 && wc <= 127
 
 			// raw text
 			var gotRaw, gotStr string
 			if p := c17Safe(func() { gotRaw, gotStr = id.ToRaw(), id.String() }); p != "" {
-				fails.add("rc_panic", "AccountID{%d,%x}.ToRaw/String: %s", wc, h, p)
+				fails.add("rc_panic_raw", "AccountID{%d,%x}.ToRaw/String: %s", wc, h, p)
 			} else if gotRaw != raw || gotStr != raw {
-				fails.add("rc_raw_roundtrip", "AccountID{%d,%x}: ToRaw=%q String=%q, specification gives %q", wc, h, gotRaw, gotStr, raw)
+				fails.add("rc_toraw_differs_from_spec", "AccountID{%d,%x}: ToRaw=%q String=%q, specification gives %q", wc, h, gotRaw, gotStr, raw)
 			}
 			for _, p := range []struct {
 				name string
@@ -453,7 +492,7 @@ func TestVerifStandin_C17_Forms(t *testing.T) {
 				var back AccountID
 				var err error
 				if pm := c17Safe(func() { back, err = p.fn(raw) }); pm != "" {
-					fails.add("rc_panic", "%s(%q): %s", p.name, raw, pm)
+					fails.add("rc_panic_raw", "%s(%q): %s", p.name, raw, pm)
 				} else if err != nil || back != id {
 					fails.add("rc_raw_roundtrip", "%s(%q) = %s, %v", p.name, raw, c17Raw(back.Workchain, back.Address), err)
 				}
@@ -463,26 +502,26 @@ func TestVerifStandin_C17_Forms(t *testing.T) {
 			if p := c17Safe(func() {
 				b, err := id.MarshalJSON()
 				if err != nil || string(b) != `"`+raw+`"` {
-					fails.add("rc_json_roundtrip", "AccountID{%d,%x}.MarshalJSON = %q, %v; want %q", wc, h, b, err, `"`+raw+`"`)
+					fails.add("rc_json_marshal", "AccountID{%d,%x}.MarshalJSON = %q, %v; want %q", wc, h, b, err, `"`+raw+`"`)
 					return
 				}
 				var back AccountID
 				if err := back.UnmarshalJSON(b); err != nil || back != id {
-					fails.add("rc_json_roundtrip", "UnmarshalJSON(%s) = %s, %v", b, c17Raw(back.Workchain, back.Address), err)
+					fails.add("rc_json_unmarshal", "UnmarshalJSON(%s) = %s, %v", b, c17Raw(back.Workchain, back.Address), err)
 				}
 				hold := c17Holder{A: id, P: &id, M: map[string]AccountID{"k": id}, L: []AccountID{id, id}}
 				doc, err := json.Marshal(hold)
 				wantDoc := fmt.Sprintf(`{"A":%q,"P":%q,"M":{"k":%q},"L":[%q,%q]}`, raw, raw, raw, raw, raw)
 				if err != nil || string(doc) != wantDoc {
-					fails.add("rc_json_roundtrip", "json.Marshal(struct/map/slice of %s) = %s, %v; want %s", raw, doc, err, wantDoc)
+					fails.add("rc_json_container", "json.Marshal(struct/map/slice of %s) = %s, %v; want %s", raw, doc, err, wantDoc)
 					return
 				}
 				var hb c17Holder
 				if err := json.Unmarshal(doc, &hb); err != nil || hb.A != id || hb.P == nil || *hb.P != id || hb.M["k"] != id || len(hb.L) != 2 || hb.L[0] != id || hb.L[1] != id {
-					fails.add("rc_json_roundtrip", "json.Unmarshal(%s) = %+v, %v", doc, hb, err)
+					fails.add("rc_json_container", "json.Unmarshal(%s) = %+v, %v", doc, hb, err)
 				}
 			}); p != "" {
-				fails.add("rc_panic", "JSON of AccountID{%d,%x}: %s", wc, h, p)
+				fails.add("rc_panic_json", "JSON of AccountID{%d,%x}: %s", wc, h, p)
 			}
 
 			// TL: int32 little-endian + int256 raw
@@ -493,73 +532,48 @@ func TestVerifStandin_C17_Forms(t *testing.T) {
 				if p := c17Safe(func() {
 					b, err := id.MarshalTL()
 					if err != nil || !bytes.Equal(b, wantTL) {
-						fails.add("rc_tl_roundtrip", "AccountID{%d,%x}.MarshalTL = %x, %v; want %x", wc, h, b, err, wantTL)
+						fails.add("rc_tl_marshal", "AccountID{%d,%x}.MarshalTL = %x, %v; want %x", wc, h, b, err, wantTL)
 					}
 					r := bytes.NewReader(append(append([]byte{}, wantTL...), 0xde, 0xad, 0xbe))
 					var back AccountID
 					if err := back.UnmarshalTL(r); err != nil || back != id || r.Len() != 3 {
-						fails.add("rc_tl_roundtrip", "UnmarshalTL(%x ++ deadbe) = %s, %v, %d bytes left (want 3)", wantTL, c17Raw(back.Workchain, back.Address), err, r.Len())
+						fails.add("rc_tl_unmarshal", "UnmarshalTL(%x ++ deadbe) = %s, %v, %d bytes left (want 3)", wantTL, c17Raw(back.Workchain, back.Address), err, r.Len())
 					}
 				}); p != "" {
-					fails.add("rc_panic", "TL of AccountID{%d,%x}: %s", wc, h, p)
+					fails.add("rc_panic_tl", "TL of AccountID{%d,%x}: %s", wc, h, p)
 				}
 			}
 
 			// TL-B: addr_std$10 nothing$0 workchain_id:int8 address:bits256
+			if !inInt8 {
+				continue
+			}
 			if p := c17Safe(func() {
 				idc := id
 				ma := idc.ToMsgAddress()
-				if !inInt8 {
-					// addr_std cannot carry this workchain: anything but the same account back is a silent change of account
-					back, err := AccountIDFromTlb(ma)
-					if err == nil && (back == nil || *back != id) {
-						got := "nil"
-						if back != nil {
-							got = c17Raw(back.Workchain, back.Address)
-						}
-						fails.add("rc_tomsgaddress_workchain_outside_int8", "AccountID %s: ToMsgAddress() gives %s (workchain %d) and AccountIDFromTlb of it is %s", raw, ma.SumType, ma.AddrStd.WorkchainId, got)
-					}
-					return
-				}
 				wantBits := "10" + "0" + c17UintBits(uint64(uint8(int8(wc))), 8) + c17BytesBits(h[:])
 				if ma.SumType != "AddrStd" || ma.AddrStd.Anycast.Exists || int32(ma.AddrStd.WorkchainId) != wc || [32]byte(ma.AddrStd.Address) != h {
-					fails.add("rc_tlb_roundtrip", "AccountID %s: ToMsgAddress() = %s anycast=%v wc=%d addr=%x", raw, ma.SumType, ma.AddrStd.Anycast.Exists, ma.AddrStd.WorkchainId, ma.AddrStd.Address)
+					fails.add("rc_tomsgaddress_fields", "AccountID %s: ToMsgAddress() = %s anycast=%v wc=%d addr=%x", raw, ma.SumType, ma.AddrStd.Anycast.Exists, ma.AddrStd.WorkchainId, ma.AddrStd.Address)
 				}
 				c := boc.NewCell()
 				if err := tlb.Marshal(c, ma); err != nil {
-					fails.add("rc_tlb_roundtrip", "AccountID %s: tlb.Marshal(ToMsgAddress()): %v", raw, err)
+					fails.add("rc_tomsgaddress_bits", "AccountID %s: tlb.Marshal(ToMsgAddress()): %v", raw, err)
 				} else if got := c17CellBits(c); got != wantBits {
-					fails.add("rc_tlb_roundtrip", "AccountID %s: ToMsgAddress() serialises to %x (%d bits), addr_std gives %x (%d bits)", raw, c17BitsBytes(got), len(got), c17BitsBytes(wantBits), len(wantBits))
+					fails.add("rc_tomsgaddress_bits", "AccountID %s: ToMsgAddress() serialises to %x (%d bits), addr_std gives %x (%d bits)", raw, c17BitsBytes(got), len(got), c17BitsBytes(wantBits), len(wantBits))
 				}
 				var dec tlb.MsgAddress
 				if err := tlb.Unmarshal(c17CellFromBits(wantBits), &dec); err != nil {
-					fails.add("rc_tlb_roundtrip", "tlb.Unmarshal(MsgAddress) of addr_std bits %x: %v", c17BitsBytes(wantBits), err)
+					fails.add("rc_tlb_msgaddress_decode", "tlb.Unmarshal(MsgAddress) of addr_std bits %x: %v", c17BitsBytes(wantBits), err)
 					return
 				}
 				for _, src := range []tlb.MsgAddress{ma, dec} {
 					back, err := AccountIDFromTlb(src)
 					if err != nil || back == nil || *back != id {
-						fails.add("rc_tlb_roundtrip", "AccountIDFromTlb(addr_std of %s) = %v, %v", raw, back, err)
+						fails.add("rc_accountidfromtlb_std", "AccountIDFromTlb(addr_std of %s) = %v, %v", raw, back, err)
 					}
 				}
 			}); p != "" {
-				fails.add("rc_panic", "TL-B of AccountID{%d,%x}: %s", wc, h, p)
-			}
-
-			// ToHuman outside int8: an error is impossible (no error result), so the string must at least not denote
-			// another account.
-			if !inInt8 {
-				if p := c17Safe(func() {
-					for _, bounce := range []bool{true, false} {
-						s := id.ToHuman(bounce, false)
-						back, err := AccountIDFromBase64Url(s)
-						if err == nil && back != id {
-							fails.add("rc_tohuman_workchain_outside_int8", "AccountID %s: ToHuman(%v,false) = %q which parses back to %s", raw, bounce, s, c17Raw(back.Workchain, back.Address))
-						}
-					}
-				}); p != "" {
-					fails.add("rc_panic", "ToHuman of AccountID{%d,%x}: %s", wc, h, p)
-				}
+				fails.add("rc_panic_tlb", "TL-B of AccountID{%d,%x}: %s", wc, h, p)
 			}
 		}
 	}
@@ -569,13 +583,13 @@ func TestVerifStandin_C17_Forms(t *testing.T) {
 		ma := (*AccountID)(nil).ToMsgAddress()
 		c := boc.NewCell()
 		if err := tlb.Marshal(c, ma); err != nil || c17CellBits(c) != "00" {
-			fails.add("rc_tlb_roundtrip", "(*AccountID)(nil).ToMsgAddress() serialises to %q, %v; want addr_none$00", c17CellBits(c), err)
+			fails.add("rc_tomsgaddress_nil", "(*AccountID)(nil).ToMsgAddress() serialises to %q, %v; want addr_none$00", c17CellBits(c), err)
 		}
 		for _, bits := range []string{"00", "01" + c17UintBits(0, 9), "01" + c17UintBits(256, 9) + c17BytesBits(hashes[1][:]), "01" + c17UintBits(5, 9) + "10101"} {
 			st.note("tlb|" + bits)
 			var dec tlb.MsgAddress
 			if err := tlb.Unmarshal(c17CellFromBits(bits), &dec); err != nil {
-				fails.add("rc_tlb_not_std_wrong_id", "tlb.Unmarshal(MsgAddress) of bits %q: %v", bits, err)
+				fails.add("rc_tlb_msgaddress_decode", "tlb.Unmarshal(MsgAddress) of bits %q: %v", bits, err)
 				continue
 			}
 			if back, err := AccountIDFromTlb(dec); back != nil {
@@ -583,7 +597,7 @@ func TestVerifStandin_C17_Forms(t *testing.T) {
 			}
 		}
 	}); p != "" {
-		fails.add("rc_panic", "addr_none / addr_extern: %s", p)
+		fails.add("rc_panic_tlb", "addr_none / addr_extern: %s", p)
 	}
 	// truncated TL input: an error, never a panic, never success
 	for n := 0; n < 36; n++ {
@@ -592,9 +606,9 @@ func TestVerifStandin_C17_Forms(t *testing.T) {
 		rng.Read(data)
 		var err error
 		if p := c17Safe(func() { var x AccountID; err = x.UnmarshalTL(bytes.NewReader(data)) }); p != "" {
-			fails.add("rc_panic", "UnmarshalTL(%x): %s", data, p)
+			fails.add("rc_panic_tl", "UnmarshalTL(%x): %s", data, p)
 		} else if err == nil {
-			fails.add("rc_tl_roundtrip", "UnmarshalTL of %d bytes (%x) succeeds, 36 are needed", n, data)
+			fails.add("rc_tl_truncated_accepted", "UnmarshalTL of %d bytes (%x) succeeds, 36 are needed", n, data)
 		}
 	}
 
@@ -631,7 +645,7 @@ func TestVerifStandin_C17_Forms(t *testing.T) {
 			if p := c17Safe(func() {
 				var dec tlb.MsgAddress
 				if err := tlb.Unmarshal(c17CellFromBits(stdBits), &dec); err != nil {
-					fails.add("rc_tlb_anycast_wrong_id", "tlb.Unmarshal(MsgAddress) of addr_std with anycast depth %d (bits %x): %v", depth, c17BitsBytes(stdBits), err)
+					fails.add("rc_tlb_msgaddress_decode", "tlb.Unmarshal(MsgAddress) of addr_std with anycast depth %d (bits %x): %v", depth, c17BitsBytes(stdBits), err)
 				} else {
 					checkStd("decoded", dec)
 				}
@@ -643,7 +657,7 @@ func TestVerifStandin_C17_Forms(t *testing.T) {
 				built.AddrStd.Address = h
 				checkStd("built", built)
 			}); p != "" {
-				fails.add("rc_panic", "addr_std with anycast, bits %x: %s", c17BitsBytes(stdBits), p)
+				fails.add("rc_panic_tlb", "addr_std with anycast, bits %x: %s", c17BitsBytes(stdBits), p)
 			}
 			// addr_var$11 anycast:(Maybe Anycast) addr_len:(## 9) workchain_id:int32 address:(bits addr_len)
 			for _, withAny := range []bool{false, true} {
@@ -667,7 +681,7 @@ func TestVerifStandin_C17_Forms(t *testing.T) {
 					if p := c17Safe(func() {
 						var dec tlb.MsgAddress
 						if err := tlb.Unmarshal(c17CellFromBits(bits), &dec); err != nil {
-							fails.add("rc_tlb_not_std_wrong_id", "tlb.Unmarshal(MsgAddress) of addr_var addr_len=%d anycast=%v (bits %x): %v", addrLen, withAny, c17BitsBytes(bits), err)
+							fails.add("rc_tlb_msgaddress_decode", "tlb.Unmarshal(MsgAddress) of addr_var addr_len=%d anycast=%v (bits %x): %v", addrLen, withAny, c17BitsBytes(bits), err)
 							return
 						}
 						back, err := AccountIDFromTlb(dec)
@@ -686,7 +700,7 @@ func TestVerifStandin_C17_Forms(t *testing.T) {
 							fails.add("rc_tlb_not_std_wrong_id", "AccountIDFromTlb(addr_var addr_len=%d anycast=%v wc=%d address bits %x) = %s", addrLen, withAny, wc32, c17BitsBytes(addrBits), c17Raw(back.Workchain, back.Address))
 						}
 					}); p != "" {
-						fails.add("rc_panic", "addr_var bits %x: %s", c17BitsBytes(bits), p)
+						fails.add("rc_panic_tlb", "addr_var bits %x: %s", c17BitsBytes(bits), p)
 					}
 				}
 			}
@@ -701,7 +715,7 @@ func TestVerifStandin_C17_Forms(t *testing.T) {
 			fails.add("rc_tlb_not_std_wrong_id", "AccountIDFromTlb(MsgAddress{} without SumType) = %v, %v", back, err)
 		}
 	}); p != "" {
-		fails.add("rc_panic", "AccountIDFromTlb(AddrVar nil / empty): %s", p)
+		fails.add("rc_panic_tlb", "AccountIDFromTlb(AddrVar nil / empty): %s", p)
 	}
 
 	// ---- raw parsing: short hex (zero filling), boundary lengths, workchain spellings ----
@@ -734,16 +748,16 @@ func TestVerifStandin_C17_Forms(t *testing.T) {
 				var back AccountID
 				var err error
 				if pm := c17Safe(func() { back, err = p.fn(s) }); pm != "" {
-					fails.add("rc_panic", "%s(%q) (hex %x) [%s]: %s", p.name, s, s, what, pm)
+					fails.add("rc_panic_raw", "%s(%q) (hex %x) [%s]: %s", p.name, s, s, what, pm)
 					continue
 				}
 				switch {
 				case err == nil && !valid:
 					fails.add("rc_raw_malformed_accepted", "%s accepts %q (hex %x) [%s] as %s", p.name, s, s, what, c17Raw(back.Workchain, back.Address))
 				case err == nil && back != want:
-					fails.add("rc_raw_short_hex", "%s(%q) [%s] = %s, the text denotes %s", p.name, s, what, c17Raw(back.Workchain, back.Address), c17Raw(want.Workchain, want.Address))
+					fails.add("rc_raw_short_hex_wrong_id", "%s(%q) [%s] = %s, the text denotes %s", p.name, s, what, c17Raw(back.Workchain, back.Address), c17Raw(want.Workchain, want.Address))
 				case err != nil && mustAccept:
-					fails.add("rc_raw_short_hex", "%s(%q) [%s]: %v; want %s", p.name, s, what, err, c17Raw(want.Workchain, want.Address))
+					fails.add("rc_raw_short_hex_rejected", "%s(%q) [%s]: %v; want %s", p.name, s, what, err, c17Raw(want.Workchain, want.Address))
 				}
 			}
 		}
@@ -822,7 +836,8 @@ func TestVerifStandin_C17_Forms(t *testing.T) {
 		}
 	}
 
-	// ---- user-friendly form: wrong length, padding, white space, mixed alphabets, unknown tags ----
+	// ---- user-friendly form: wrong length and padding are rejected; white space skipped by the base64 decoder, mixed
+	// alphabets and unknown tag bytes are leniencies the property does not forbid: informational only ----
 	mixed := 0
 	for k, h := range hashes {
 		if k >= 200 && mixed >= 20 {
@@ -848,14 +863,14 @@ func TestVerifStandin_C17_Forms(t *testing.T) {
 				expectReject("rc_padding_accepted", "47 digits + '='", alpha[:47]+"=")
 				expectReject("rc_padding_accepted", "46 digits + '=='", alpha[:46]+"==")
 				expectReject("rc_padding_accepted", "'=' inside", alpha[:24]+"="+alpha[25:])
-				expectReject("rc_whitespace_accepted", "trailing \\n", alpha+"\n")
-				expectReject("rc_whitespace_accepted", "leading \\n", "\n"+alpha)
-				expectReject("rc_whitespace_accepted", "\\r\\n inside", alpha[:24]+"\r\n"+alpha[24:])
-				expectReject("rc_whitespace_accepted", "\\n replacing a digit", alpha[:24]+"\n"+alpha[25:])
-				expectReject("rc_whitespace_accepted", "trailing space", alpha+" ")
-				expectReject("rc_whitespace_accepted", "leading space", " "+alpha)
-				expectReject("rc_whitespace_accepted", "trailing tab", alpha+"\t")
-				expectReject("rc_whitespace_accepted", "trailing NUL", alpha+"\x00")
+				expectReject("info_whitespace_accepted", "trailing \\n", alpha+"\n")
+				expectReject("info_whitespace_accepted", "leading \\n", "\n"+alpha)
+				expectReject("info_whitespace_accepted", "\\r\\n inside", alpha[:24]+"\r\n"+alpha[24:])
+				expectReject("info_whitespace_accepted", "\\n replacing a digit", alpha[:24]+"\n"+alpha[25:])
+				expectReject("info_whitespace_accepted", "trailing space", alpha+" ")
+				expectReject("info_whitespace_accepted", "leading space", " "+alpha)
+				expectReject("info_whitespace_accepted", "trailing tab", alpha+"\t")
+				expectReject("info_whitespace_accepted", "trailing NUL", alpha+"\x00")
 			}
 		}
 		// mixed alphabets: one special digit spelled in the url alphabet and another one in the std alphabet
@@ -869,10 +884,10 @@ func TestVerifStandin_C17_Forms(t *testing.T) {
 			mixed++
 			m := []byte(url)
 			m[special[0]] = std[special[0]]
-			expectReject("rc_mixed_alphabet_accepted", fmt.Sprintf("url form %q with digit %d spelled %q", url, special[0], std[special[0]]), string(m))
+			expectReject("info_mixed_alphabet_accepted", fmt.Sprintf("url form %q with digit %d spelled %q", url, special[0], std[special[0]]), string(m))
 			m = []byte(std)
 			m[special[1]] = url[special[1]]
-			expectReject("rc_mixed_alphabet_accepted", fmt.Sprintf("std form %q with digit %d spelled %q", std, special[1], url[special[1]]), string(m))
+			expectReject("info_mixed_alphabet_accepted", fmt.Sprintf("std form %q with digit %d spelled %q", std, special[1], url[special[1]]), string(m))
 		}
 	}
 	for k := 0; k < nTag; k++ {
@@ -883,12 +898,11 @@ func TestVerifStandin_C17_Forms(t *testing.T) {
 			if tag == 0x11 || tag == 0x51 || tag == 0x91 || tag == 0xd1 {
 				continue
 			}
-			expectReject("rc_unknown_tag_accepted", fmt.Sprintf("tag byte %#02x, valid CRC, wc %d hash %x", tag, wc, h), c17Human(tag, wc, h, k%4 < 2))
+			expectReject("info_unknown_tag_accepted", fmt.Sprintf("tag byte %#02x, valid CRC, wc %d hash %x", tag, wc, h), c17Human(tag, wc, h, k%4 < 2))
 		}
 	}
 
 	fails.report(t)
-	st.print("c17_forms")
 }
 
 // ---- shards ----
